@@ -52,19 +52,40 @@ def clone(x):
 
 
 def same(a, b) -> bool:
-    """Deep equality that also distinguishes 1 / 1.0 / True and dict / non-dict."""
+    """Typed, identity-aware deep equality: the same object, or same type and same value.
+    Distinguishes 1 / 1.0 / True / numpy.int64(1), list / tuple, dict / non-dict; NaN equals NaN; dictionary keys
+    must be equal and of the same type (1 and True, which Python dictionaries cannot tell apart, are accepted for
+    each other).  Objects without value semantics (a bare object()) are equal only to themselves."""
+    if a is b:
+        return True
     if isinstance(a, dict) or isinstance(b, dict):
         if not (isinstance(a, dict) and isinstance(b, dict)) or len(a) != len(b):
             return False
+        bkeys = None
         for k, v in a.items():
             if k not in b or not same(v, b[k]):
                 return False
+            if type(k) is not str:
+                if bkeys is None:
+                    bkeys = {kb: kb for kb in b}
+                kb = bkeys[k]
+                if type(kb) is not type(k) and not (type(k) in (bool, int) and type(kb) in (bool, int)):
+                    return False
+                if isinstance(k, tuple) and not same(k, kb):
+                    return False
         return True
     if isinstance(a, (list, tuple)) or isinstance(b, (list, tuple)):
         if type(a) is not type(b) or len(a) != len(b):
             return False
         return all(same(x, y) for x, y in zip(a, b))
-    return type(a) is type(b) and a == b
+    if type(a) is not type(b):
+        return False
+    try:
+        if a == b:
+            return True
+        return isinstance(a, float) and a != a and b != b      # NaN (float, numpy.float64)
+    except Exception:
+        return False
 
 
 def flatten(d):
@@ -144,6 +165,79 @@ def conflict_class(user, default):
         if name in cls:
             return name
     return "no-type-conflict"
+
+
+# ------------------------------------------------------------------------------------- non-JSON-native alphabets
+#
+# The statement quantifies over "all nested dictionaries" and keeps every user-specified leaf VALUE: a leaf is any
+# non-dict object, opaque to the merge.  Cases stay JSON-serialisable by naming the leaves and keys.
+
+class Opaque:
+    """A value object JSON cannot encode; equal copies compare equal."""
+
+    def __init__(self, v):
+        self.v = v
+
+    def __eq__(self, o):
+        return type(o) is Opaque and o.v == self.v
+
+    def __hash__(self):
+        return hash(("Opaque", self.v))
+
+    def __repr__(self):
+        return f"Opaque({self.v!r})"
+
+
+class Bare:
+    """An arbitrary object: identity equality only (like object()), with an address-free repr so that case
+    descriptions are deterministic.  "Keeping the value" can only mean keeping this very object."""
+    __slots__ = ()
+
+    def __repr__(self):
+        return "<bare object>"
+
+
+_BARE = Bare()
+
+
+def exotic_leaves():
+    """name -> leaf object.  Equality rule per leaf: same type and == (NaN equals NaN); for `object` (a bare
+    object()) == is identity, so the result must hold the very same object."""
+    import datetime
+    import numpy
+    return {
+        "one": 1, "two": 2,
+        "tuple": (1, 2), "tuple9": (9,), "date": datetime.date(2024, 5, 1), "date2": datetime.date(1999, 12, 31),
+        "datetime": datetime.datetime(2024, 5, 1, 12, 30), "np_int64": numpy.int64(3), "np_float64": numpy.float64(2.5),
+        "bytes": b"x", "frozenset": frozenset({1, 2}), "nan": float("nan"), "inf": float("inf"),
+        "opaque": Opaque(7), "object": _BARE,
+    }
+
+
+KEY_TOKENS = {"a": "a", "b": "b", "#1": 1, "#2": 2, "#(1,2)": (1, 2), "#None": None, "#True": True}
+
+
+def named_space(depth, key_tokens, leaf_names):
+    """dict_space over keys / leaves given by name (what a JSON case can carry)."""
+    ex = exotic_leaves()
+    return dict_space(depth, keys=tuple(KEY_TOKENS[k] for k in key_tokens), leaves=tuple(ex[n] for n in leaf_names))
+
+
+def key_pairs():
+    """All 2-key sets over {a, 1, 2, (1,2), None, True} holding at least one non-string key; 1 and True never
+    together (they are one dictionary key)."""
+    toks = ["a", "#1", "#2", "#(1,2)", "#None", "#True"]
+    out = []
+    for x, y in itertools.combinations(toks, 2):
+        if {x, y} == {"#1", "#True"}:
+            continue
+        out.append([x, y])
+    return out
+
+
+def show(x, n=300):
+    s = repr(x)
+    return s if len(s) <= n else s[:n] + "…"
 
 
 def has_empties(x):
@@ -363,6 +457,18 @@ def set_path(obj, path, value):
             cur[k] = {}
         cur = cur[k]
     cur[path[-1]] = clone(value)
+    return out
+
+
+def set_path_raw(obj, path, value):
+    """set_path for values / keys of any type (the value object itself is stored, not a copy)."""
+    out = clone(obj)
+    cur = out
+    for k in path[:-1]:
+        if not isinstance(cur.get(k), dict):
+            cur[k] = {}
+        cur = cur[k]
+    cur[path[-1]] = value
     return out
 
 
